@@ -1,48 +1,208 @@
-"""time / datetime / calendar / re models (T-time).  Calendar arithmetic is the proleptic Gregorian
-day-number closed form; see DESIGN.md 3.2.  Filled in for C07/C19."""
+"""time / datetime / calendar / re models (T-time).  Calendar arithmetic is the proleptic Gregorian day-number closed
+form (DESIGN.md 3.2).  Formatted dates are abstract values (DateStr) carrying their fields: strftime/strptime with the
+four format strings of the tree are assumed mutually inverse on the fields they print; an arbitrary string parses to
+ValueError or to some valid date."""
 from __future__ import annotations
 
 import z3
 
-from .core import SV, Unsupported, as_int, as_real, fresh
+from .core import SV, PyRaise, Unsupported, as_int, as_real, fresh, term
 from .values import Builtin, ClassVal, Model, ModuleVal, Obj, Opaque
+
+CUM = [0, 31, 59, 90, 120, 151, 181, 212, 243, 273, 304, 334]
+
+
+def isleap_t(y):
+    return z3.And(y % 4 == 0, z3.Or(y % 100 != 0, y % 400 == 0))
+
+
+def cum(m):
+    e = z3.IntVal(CUM[11])
+    for i in range(10, -1, -1):
+        e = z3.If(m == i + 1, z3.IntVal(CUM[i]), e)
+    return e
+
+
+def dim(y, m):
+    return z3.If(m == 2, z3.If(isleap_t(y), 29, 28), z3.If(z3.Or(m == 4, m == 6, m == 9, m == 11), 30, 31))
+
+
+def days(y, m, d):
+    y1 = y - 1
+    return 365 * y1 + y1 / 4 - y1 / 100 + y1 / 400 + cum(m) + z3.If(z3.And(m > 2, isleap_t(y)), 1, 0) + d
+
+
+def E(f):
+    """seconds on the local civil time line (integer part)"""
+    return 86400 * days(f["Y"], f["M"], f["D"]) + 3600 * f["h"] + 60 * f["mi"] + f["s"]
+
+
+def valid(f, ymin=1, ymax=9999):
+    return z3.And(
+        ymin <= f["Y"], f["Y"] <= ymax, 1 <= f["M"], f["M"] <= 12, 1 <= f["D"], f["D"] <= dim(f["Y"], f["M"]),
+        0 <= f["h"], f["h"] < 24, 0 <= f["mi"], f["mi"] < 60, 0 <= f["s"], f["s"] < 60,
+    )
+
+
+def fresh_fields(tag):
+    return {k: fresh("int", f"{tag}_{k}").t for k in ("Y", "M", "D", "h", "mi", "s")}
+
+
+class StructTime(Model):
+    model_name = "struct_time"
+
+    def __init__(self, zone, fields, secs=None):
+        super().__init__()
+        self.zone = zone
+        self.f = fields
+        self.secs = secs
+
+
+class DateStr(Model):
+    """a formatted date: kind in {'minute' (%b %e %H:%M), 'day' (%b %e  %Y), 'stamp' (%Y%m%d%H%M%S), 'stamp00'}"""
+
+    model_name = "datestr"
+    isa = ("str",)
+
+    def __init__(self, kind, fields):
+        super().__init__()
+        self.kind = kind
+        self.f = fields
+
+    def getattr(self, it, name):
+        if name == "startswith":
+
+            def sw(i, a, k):
+                if a[0] == "Feb 29" and self.kind in ("minute", "day"):
+                    return i.mk_bool(z3.And(self.f["M"] == 2, self.f["D"] == 29))
+                raise Unsupported("DateStr.startswith(" + repr(a[0]) + ")")
+
+            return Builtin("datestr.startswith", sw)
+        if name == "strip":
+            return Builtin("datestr.strip", lambda i, a, k: self)
+        raise Unsupported("DateStr." + name)
+
+    def to_str(self, it):
+        return self
+
+    def eq(self, it, other):
+        if isinstance(other, DateStr) and other.kind == self.kind:
+            keys = {"minute": ("M", "D", "h", "mi"), "day": ("Y", "M", "D"), "stamp": ("Y", "M", "D", "h", "mi", "s"), "stamp00": ("Y", "M", "D", "h", "mi")}[self.kind]
+            return z3.And(*[self.f[k] == other.f[k] for k in keys])
+        return False
+
+
+class DateTimeModel(Model):
+    model_name = "datetime"
+
+    def __init__(self, fields, frac=None):
+        super().__init__()
+        self.f = fields
+        self.frac = frac if frac is not None else z3.RealVal(0)
+
+    def getattr(self, it, name):
+        if name == "year":
+            return SV("int", self.f["Y"])
+        if name == "replace":
+
+            def replace(i, a, k):
+                if set(k) != {"year"}:
+                    raise Unsupported("datetime.replace with " + repr(sorted(k)))
+                y = as_int(k["year"])
+                ok = z3.And(y >= 1, y <= 9999, z3.Or(z3.Not(z3.And(self.f["M"] == 2, self.f["D"] == 29)), isleap_t(y)))
+                if not i.ctx.branch(ok, "replace-year-valid"):
+                    i.throw("ValueError", "day is out of range for month / year out of range")
+                nf = dict(self.f)
+                nf["Y"] = y
+                return DateTimeModel(nf, self.frac)
+
+            return Builtin("datetime.replace", replace)
+        if name == "strftime":
+
+            def strftime(i, a, k):
+                if a[0] == "%Y%m%d%H%M00":
+                    return DateStr("stamp00", self.f)
+                raise Unsupported("datetime.strftime(" + repr(a[0]) + ")")
+
+            return Builtin("datetime.strftime", strftime)
+        raise Unsupported("datetime." + name)
+
+    def m___sub__(self, it, other):
+        if isinstance(other, DateTimeModel):
+            return TimeDeltaModel(z3.ToReal(E(self.f) - E(other.f)) + self.frac - other.frac)
+        raise Unsupported("datetime - " + type(other).__name__)
+
+
+class TimeDeltaModel(Model):
+    model_name = "timedelta"
+
+    def __init__(self, secs):
+        super().__init__()
+        self.secs = secs
+
+    def getattr(self, it, name):
+        if name == "total_seconds":
+            return Builtin("timedelta.total_seconds", lambda i, a, k: SV("real", self.secs))
+        raise Unsupported("timedelta." + name)
+
+
+class YearPrefixed(Model):
+    """f"{year} {s}" for a DateStr s (parse_ls_date's Feb-29 branch)"""
+
+    model_name = "yearprefixed"
+
+    def __init__(self, year, inner):
+        super().__init__()
+        self.year = year
+        self.inner = inner
+
+
+FORMATS = {
+    "%b %d %H:%M": ("minute", ("M", "D", "h", "mi")),
+    "%Y %b %d %H:%M": ("yminute", ("Y", "M", "D", "h", "mi")),
+    "%b %d  %Y": ("day", ("Y", "M", "D")),
+    "%m/%d/%Y %I:%M %p": ("win", ("Y", "M", "D", "h", "mi")),
+}
 
 
 def install(it):
     mm = it.model_modules
 
     def t_time(i, a, k):
+        g = i.ctx.ghost
+        if "walltime" in g:
+            return g["walltime"]
         r = fresh("real", "walltime")
         i.ctx.assume(r.t >= 0)
         return r
 
-    def unsup(name):
-        def f(i, a, k):
-            raise Unsupported(name + " is not modelled")
+    def civil_of(i, x, zone):
+        """fields of a timestamp: known when the contract registered them (ghost), otherwise some valid date"""
+        g = i.ctx.ghost.get("civil", [])
+        t = term(x)
+        for tt, fields in g:
+            if tt.eq(t):
+                return fields
+        f = fresh_fields("tm")
+        i.ctx.assume(valid(f, 1, 9999))
+        return f
 
-        return Builtin(name, f)
+    def gmtime(i, a, k):
+        return StructTime("utc", civil_of(i, a[0], "utc"), a[0])
 
-    class StructTime(Model):
-        model_name = "struct_time"
-
-        def __init__(self, zone, secs):
-            super().__init__()
-            self.zone = zone
-            self.secs = secs
+    def localtime(i, a, k):
+        return StructTime("local", civil_of(i, a[0], "local"), a[0])
 
     f_strftime = z3.Function("py_strftime", z3.StringSort(), z3.BoolSort(), z3.RealSort(), z3.StringSort())
 
-    def gmtime(i, a, k):
-        return StructTime("utc", a[0])
-
-    def localtime(i, a, k):
-        return StructTime("local", a[0])
-
     def strftime(i, a, k):
         fmt, st = a[0], a[1]
-        from .core import term
-
-        r = f_strftime(term(fmt), z3.BoolVal(st.zone == "utc"), as_real(st.secs))
+        if isinstance(fmt, str) and fmt == "%b %e %H:%M":
+            return DateStr("minute", st.f)
+        if isinstance(fmt, str) and fmt == "%b %e  %Y":
+            return DateStr("day", st.f)
+        secs = st.secs if st.secs is not None else fresh("real", "secs")
+        r = f_strftime(term(fmt), z3.BoolVal(st.zone == "utc"), as_real(secs))
         if isinstance(fmt, str) and fmt == "%Y%m%d%H%M%S":
             # T-time: an all-numeric format yields digits only
             i.ctx.assume(z3.InRe(r, z3.Plus(z3.Range("0", "9"))))
@@ -57,6 +217,106 @@ def install(it):
             "strftime": Builtin("time.strftime", strftime),
         },
     )
-    mm["datetime"] = ModuleVal("datetime", {"datetime": Opaque("datetime.datetime")})
-    mm["calendar"] = ModuleVal("calendar", {"isleap": unsup("calendar.isleap")})
-    mm["re"] = ModuleVal("re", {"finditer": unsup("re.finditer"), "findall": unsup("re.findall")})
+
+    # ------------------------------------------------------------------ datetime.datetime
+    def strptime(i, a, k):
+        s, fmt = a[0], a[1]
+        if not isinstance(fmt, str) or fmt not in FORMATS:
+            raise Unsupported("strptime format " + repr(fmt))
+        kind, keys = FORMATS[fmt]
+        if isinstance(s, DateStr):
+            # T-time: the year-less and the year form reject each other; matching forms give the printed fields back
+            if (s.kind, kind) in (("minute", "minute"), ("day", "day")):
+                f = {"Y": z3.IntVal(1900), "s": z3.IntVal(0), "h": z3.IntVal(0), "mi": z3.IntVal(0)}
+                for kk in keys:
+                    f[kk] = s.f[kk]
+                if kind == "minute":
+                    # "Feb 29" without a year: strptime uses 1900 (not a leap year) -> ValueError
+                    if not i.ctx.branch(z3.Not(z3.And(s.f["M"] == 2, s.f["D"] == 29)), "strptime-feb29-1900"):
+                        i.throw("ValueError", "day is out of range for month")
+                return DateTimeModel(f)
+            i.throw("ValueError", "time data does not match format")
+        if isinstance(s, YearPrefixed):
+            if kind == "yminute" and s.inner.kind == "minute":
+                f = dict(s.inner.f)
+                f["Y"] = as_int(s.year)
+                f["s"] = z3.IntVal(0)
+                ok = z3.And(f["Y"] >= 1, f["Y"] <= 9999, f["D"] <= dim(f["Y"], f["M"]))
+                if not i.ctx.branch(ok, "strptime-valid"):
+                    i.throw("ValueError", "day is out of range for month")
+                return DateTimeModel(f)
+            i.throw("ValueError", "time data does not match format")
+        # an arbitrary string: rejected, or some valid date (exception-set contracts only)
+        if i.ctx.choose(2, "strptime-outcome") == 1:
+            i.throw("ValueError", "time data does not match format")
+        f = fresh_fields("parsed")
+        i.ctx.assume(valid(f, 1, 9999))
+        if "Y" not in keys:
+            i.ctx.assume(f["Y"] == 1900)
+            i.ctx.assume(z3.Not(z3.And(f["M"] == 2, f["D"] == 29)))
+        return DateTimeModel(f)
+
+    def dt_now(i, a, k):
+        g = i.ctx.ghost
+        if "client_now" in g:
+            return g["client_now"]
+        f = fresh_fields("now")
+        i.ctx.assume(valid(f, 1, 9999))
+        fr = fresh("real", "now_frac")
+        i.ctx.assume(z3.And(fr.t >= 0, fr.t < 1))
+        return DateTimeModel(f, fr.t)
+
+    dt_cls = ModuleVal("datetime.datetime", {"strptime": Builtin("datetime.strptime", strptime), "now": Builtin("datetime.now", dt_now)})
+    mm["datetime"] = ModuleVal("datetime", {"datetime": dt_cls})
+
+    def isleap(i, a, k):
+        y = a[0]
+        if isinstance(y, int):
+            import calendar
+
+            return calendar.isleap(y)
+        return i.mk_bool(isleap_t(as_int(y)))
+
+    mm["calendar"] = ModuleVal("calendar", {"isleap": Builtin("calendar.isleap", isleap)})
+
+    # ------------------------------------------------------------------ re (the two patterns of the tree)
+    class MatchModel(Model):
+        model_name = "match"
+
+        def __init__(self, text):
+            super().__init__()
+            self.text = text
+
+        def getattr(self, it2, name):
+            if name == "group":
+                return Builtin("match.group", lambda i, a, k: self.text)
+            raise Unsupported("match." + name)
+
+    def finditer(i, a, k):
+        pat = a[0]
+        if pat != r"\((.)\1\1\d+\1\)":
+            raise Unsupported("re.finditer pattern " + repr(pat))
+        # assumed contract of the regular expression: each match is "(" c c c digits+ c ")"
+        n = i.ctx.choose(3, "epsv-matches")  # 0, 1 or 2 matches (the code uses only the last one)
+        out = []
+        for j in range(n):
+            c = fresh("str", "delim")
+            d = fresh("str", "digits")
+            i.ctx.assume(z3.Length(c.t) == 1)
+            i.ctx.assume(z3.InRe(d.t, z3.Plus(z3.Range("0", "9"))))
+            out.append(MatchModel(SV("str", z3.Concat(z3.StringVal("("), c.t, c.t, c.t, d.t, c.t, z3.StringVal(")")))))
+        return out
+
+    def findall(i, a, k):
+        pat = a[0]
+        if pat != r"[^(]*\(([^)]*)":
+            raise Unsupported("re.findall pattern " + repr(pat))
+        n = i.ctx.choose(3, "pasv-matches")
+        out = []
+        for j in range(n):
+            g = fresh("str", "group")
+            i.ctx.assume(z3.Not(z3.Contains(g.t, z3.StringVal(")"))))
+            out.append(g)
+        return out
+
+    mm["re"] = ModuleVal("re", {"finditer": Builtin("re.finditer", finditer), "findall": Builtin("re.findall", findall)})
